@@ -216,7 +216,7 @@ def st_tape(draw, maxlen=48):
 
 @st.composite
 def st_dw_case(draw, tier="quick", versions=(6, 6, 6, 2, 3, 7, 8), maxdim=3, lmin_max=2, maxev_hi=None, margins=(0.9, 0.5, 1.0, 0.0),
-               safeties=(0.1, 0.0, 0.5), scales=False):
+               safeties=(0.1, 0.0, 0.5), scales=False, bounds_forms=False):
     dim = draw(st.integers(1, maxdim))
     lmin = draw(st.integers(1, lmin_max))
     lmax = lmin + draw(st.integers(1, 2))
@@ -247,11 +247,15 @@ def st_dw_case(draw, tier="quick", versions=(6, 6, 6, 2, 3, 7, 8), maxdim=3, lmi
         c["maxev"] = hi
         if c["margin"] == 0:
             c["margin"] = 0.9
-    return apply_boxscale(c, st_boxscale(draw, dim) if scales else None)
+    c = apply_boxscale(c, st_boxscale(draw, dim) if scales else None)
+    if bounds_forms and not c.get("boxscale"):
+        c["bounds"] = st_bounds_form(draw, c)
+    return c
 
 
 @st.composite
-def st_es_case(draw, tier="quick", versions=(0, 1, 2), boundary_choices=(True, True, True, False), scales=False, dim4=False):
+def st_es_case(draw, tier="quick", versions=(0, 1, 2), boundary_choices=(True, True, True, False), scales=False, dim4=False,
+               bounds_forms=False):
     dim = draw(st.integers(2, 3))
     if dim4 and draw(st.integers(0, 7)) == 0:
         dim = 4         # few, short histories: code paths that differ only for d >= 4 (ties among >= 4 level entries)
@@ -278,7 +282,10 @@ def st_es_case(draw, tier="quick", versions=(0, 1, 2), boundary_choices=(True, T
     if dim == 4:
         c.update(lmax=draw(st.sampled_from([3, 3, 2])), maxsteps=draw(st.sampled_from([1, 2, 2, 3])), maxev=hi, legs=None, rerun=None,
                  nref=draw(st.integers(0, 1)))
-    return apply_boxscale(c, st_boxscale(draw, dim) if scales else None)
+    c = apply_boxscale(c, st_boxscale(draw, dim) if scales else None)
+    if bounds_forms and not c.get("boxscale"):
+        c["bounds"] = st_bounds_form(draw, c)
+    return c
 
 
 # ------------------------------------------------------------------------------------------------------------
@@ -371,12 +378,38 @@ def vector_function(components):
 # ------------------------------------------------------------------------------------------------------------
 # builders
 # ------------------------------------------------------------------------------------------------------------
+def st_bounds_form(draw, c):
+    """how the domain bounds are handed to the library: None = float64 arrays; integer-typed arrays ("int": both corners,
+    "mixed": integer lower corner and float upper corner; the box of the case is snapped to integer corners for these) or
+    plain Python lists ("list")"""
+    if draw(st.integers(0, 2)) != 0:
+        return None
+    form = draw(st.sampled_from(["int", "mixed", "list", "int"]))
+    if form in ("int", "mixed"):
+        lo = [float(math.floor(x)) for x in c["a"]]
+        c["b"] = [l + max(1.0, float(round(y - x))) for l, x, y in zip(lo, c["a"], c["b"])]
+        c["a"] = lo
+        if form == "mixed" and draw(st.booleans()):
+            c["b"] = [y + 0.5 for y in c["b"]]
+    return form
+
+
+def case_bounds(case):
+    form = case.get("bounds")
+    if form in ("int", "mixed") and all(float(x) == int(x) for x in list(case["a"]) + (list(case["b"]) if form == "int" else [])):
+        a = np.array([int(x) for x in case["a"]], dtype=int)
+        b = np.array([int(x) for x in case["b"]], dtype=int) if form == "int" else np.array(case["b"], dtype=float)
+        return a, b
+    if form == "list":
+        return [float(x) for x in case["a"]], [float(x) for x in case["b"]]
+    return np.array(case["a"], dtype=float), np.array(case["b"], dtype=float)
+
+
 def build_dw(case, f, reference=None, grid=None, **extra):
     from sparseSpACE.spatiallyAdaptiveSingleDimension2 import SpatiallyAdaptiveSingleDimensions2
     from sparseSpACE.GridOperation import Integration
     from sparseSpACE.Grid import GlobalTrapezoidalGrid
-    a = np.array(case["a"], dtype=float)
-    b = np.array(case["b"], dtype=float)
+    a, b = case_bounds(case)
     if grid is None:
         grid = GlobalTrapezoidalGrid(a, b, boundary=case["boundary"], modified_basis=case.get("modified", False))
     op = Integration(f, grid=grid, dim=case["dim"], reference_solution=reference, print_level=Q, log_level=Q)
@@ -390,8 +423,7 @@ def build_es(case, f, reference=None, grid=None):
     from sparseSpACE.spatiallyAdaptiveExtendSplit import SpatiallyAdaptiveExtendScheme
     from sparseSpACE.GridOperation import Integration
     from sparseSpACE.Grid import TrapezoidalGrid
-    a = np.array(case["a"], dtype=float)
-    b = np.array(case["b"], dtype=float)
+    a, b = case_bounds(case)
     if grid is None:
         grid = TrapezoidalGrid(a, b, boundary=case["boundary"])
     op = Integration(f, grid=grid, dim=case["dim"], reference_solution=reference, print_level=Q, log_level=Q)
